@@ -175,6 +175,46 @@ func runC08(c *core.Ctx) {
 		expectOut(c, e, "{{ "+u.Lit+" }}", nil, want, "literal", "a literal must denote itself", nil)
 		c.Distinct("lit", u.Lit)
 	}
+	// ---- string literals that differ only in their internal whitespace, in one process -----------------
+	wsLits := []string{"a b", "a  b", "a\tb", "a\nb", " a b", "a b ", "a   b", "a \t b", "ab", "a\r\nb"}
+	if c.Shard == 0 && c.Begin("literal-whitespace family") {
+		for round := 0; round < 2; round++ {
+			for _, l := range wsLits {
+				expectOut(c, e, "{{ \""+l+"\" }}", nil, l, "literal-whitespace", "a string literal must denote itself, whitespace inside it included", nil)
+				expectOut(c, e, "{{ 'x' | append: '"+l+"' }}", nil, "x"+l, "literal-whitespace-arg", "a string literal used as filter argument must denote itself", nil)
+				expectOut(c, e, "{{ h[\""+l+"\"] }}", map[string]any{"h": map[string]any{l: "v:" + l}}, "v:"+l, "literal-whitespace-key", "a string literal used as a key must denote itself", nil)
+				expectOut(c, e, "{% if \""+l+"\" == s %}same{% else %}different{% endif %}", map[string]any{"s": l}, "same", "literal-whitespace-compare", "a string literal must denote itself in a comparison", nil)
+				c.Distinct("wslit", l)
+			}
+		}
+	}
+	// ---- a real "size" key, also when it is bound to nil ---------------------------------------------
+	for i, mv := range []gen.V{gen.Map(gen.KV{K: "size", V: gen.Nil}), gen.Map(gen.KV{K: "size", V: gen.Nil}, gen.KV{K: "a", V: gen.Int(1)}),
+		gen.Map(gen.KV{K: "size", V: gen.Bool(false)}), gen.Map(gen.KV{K: "size", V: gen.Str("")}), gen.Map(gen.KV{K: "a", V: gen.Nil}), gen.Map()} {
+		for j, ex := range []gen.Expr{gen.Prop{X: gen.Var{Name: "m"}, Name: "size"}, gen.Prop{X: gen.Prop{X: gen.Var{Name: "o"}, Name: "m"}, Name: "size"},
+			gen.Prop{X: gen.Index{X: gen.Var{Name: "l"}, I: gen.Lit{V: gen.Int(0)}}, Name: "size"}, gen.Prop{X: gen.Var{Name: "m"}, Name: "a"}} {
+			idx++
+			if !c.Mine(idx) {
+				continue
+			}
+			env := gen.Env{{K: "m", V: mv}, {K: "o", V: gen.Map(gen.KV{K: "m", V: mv})}, {K: "l", V: gen.Arr(mv)}}
+			for _, strictMode := range []bool{false, true} {
+				prog := []gen.Node{gen.Text{S: "<"}, gen.Out{E: ex}, gen.Text{S: ">"}, gen.If{Conds: []gen.Expr{ex}, Bodies: [][]gen.Node{{gen.Text{S: "truthy"}}}, HasElse: true, Else: []gen.Node{gen.Text{S: "falsy"}}}}
+				src := gen.DefaultStyle.Source(prog)
+				if !c.Begin(fmt.Sprintf("size-key:%s env=%s strict=%v", src, env.String(), strictMode)) {
+					continue
+				}
+				eng, mod := e, m
+				if strictMode {
+					eng, mod = strict, ms
+				}
+				if modelCompare(c, eng, mod, prog, env, nil, gen.DefaultStyle, "size-key", "a.size must be the entry count only when the map has no such key (a key bound to nil is still a key)") {
+					c.Obs("size_key_cases", 1)
+					c.Distinct("sizekey", fmt.Sprint(i, j, strictMode))
+				}
+			}
+		}
+	}
 	// ---- (2) pipelines vs assign decomposition, (4) whitespace variants ------------------------------
 	n2 := c.Pick(40000, 800000)
 	for i := 0; i < n2; i++ {
